@@ -473,21 +473,27 @@ def _touching_windows(
 def _check_time_is_sorted(time):
     """Check if times are sorted."""
     mask = np.all((time[1:] - time[:-1]) >= 0)
-    assert mask
+    # Not an assert statement: python -O compiles those away
+    if not mask:
+        raise AssertionError
 
 
 @numba.njit(nogil=True, cache=True)
 def _check_objects_non_negative_length(objects):
     """Checks if objects have non-negative length."""
     mask = np.all(strax.endtime(objects) >= objects["time"])
-    assert mask
+    # Not an assert statement: python -O compiles those away
+    if not mask:
+        raise AssertionError
 
 
 @numba.njit(nogil=True, cache=True)
 def _check_objects_are_not_overlapping(objects):
     """Checks if objects overlap in time."""
     mask = np.all(objects["time"][1:] - strax.endtime(objects)[:-1] >= 0)
-    assert mask
+    # Not an assert statement: python -O compiles those away
+    if not mask:
+        raise AssertionError
 
 
 @export
